@@ -276,6 +276,13 @@ class Report:
             cov["states"] = max(self.states, 0)
             cov["transitions"] = max(self.transitions, 0)
             cov["traces_validated_against_impl"] = self.traces
+        if self.level == "proof":
+            cov.setdefault("obligations", 0)
+            cov.setdefault("discharged", 0)
+            cov.setdefault("checker_cmd", "tlc")
+            cov.setdefault("trusted_base", ["TLC"])
+            cov["states"] = max(self.states, 0)
+            cov["transitions"] = max(self.transitions, 0)
         cov["evaluations"] = max(self.evaluations, 1)
         cov["distinct_nontrivial"] = self.distinct
         cov["rule"] = self.rule
